@@ -80,6 +80,7 @@ type scopedWalker struct {
 	localDir  string
 	requested string
 	strip     string
+	root      string // where the walk started
 }
 
 func (s *scopedWalker) walk() error {
@@ -100,7 +101,8 @@ func (s *scopedWalker) walk() error {
 	if strings.HasPrefix(rootname, "/") {
 		rootname = "." + rootname
 	}
-	if err := fs.WalkDir(s.source.FS(), filepath.Clean(rootname), s.walkFn); err != nil {
+	s.root = filepath.Clean(rootname)
+	if err := fs.WalkDir(s.source.FS(), s.root, s.walkFn); err != nil {
 		return err
 	}
 	return nil
@@ -143,7 +145,9 @@ func (s *scopedWalker) walkFn(path string, d fs.DirEntry, err error) error {
 	if opts.DebugGTE(rsyncopts.DEBUG_FLIST, 1) {
 		logger.Printf("Trim(path=%q) = %q", path, name)
 	}
-	if name == "." {
+	if name == "." || (path == s.root && info.Mode().IsDir() && opts.Recurse()) {
+		// a directory named on the command line: its contents are
+		// transferred, so the receiver may delete in it
 		flags |= rsync.XMIT_TOP_DIR
 	}
 	// st.logger.Printf("flags for %q: %v", name, flags)
